@@ -97,7 +97,7 @@ def to_text(e):
 
 
 _FN = {"sin": math.sin, "cos": math.cos, "exp": math.exp, "tanh": math.tanh, "atan": math.atan,
-       "sqrt": math.sqrt, "log": math.log, "tan": math.tan}
+       "sqrt": math.sqrt, "log": math.log, "tan": math.tan, "asin": math.asin, "acos": math.acos}
 
 
 def interp(e, env):
@@ -258,7 +258,40 @@ def make_symbols(d, symbol_cls):
     return {n: symbol_cls(n) for n in names}
 
 
-def make_ui_model(d, ui, container=set, order=None, as_string=False, symtab=None):
+def resolve_presentation(pres, d):
+    """A presentation is HOW the user writes one abstract definition down: declaration order per role, container kind,
+    optional flags.  Named presentations ("random:<seed>", "list-reversed", "set", "list", ...) -> concrete dict."""
+    import random as _random
+    if isinstance(pres, str):
+        pres = {"container": pres}
+    pres = dict(pres or {})
+    c = pres.get("container", set)
+    roles = {"state": d.state, "control": d.control, "calib": d.calib, "update": d.state, "calmap": d.calib,
+             "pnoise": d.control, "sensors": sorted(d.sensors), "snoise": sorted(d.snoise)}
+    for k in d.sensors:
+        roles["readings:" + k] = sorted(d.sensors[k])
+    for k in d.snoise:
+        roles["snoise:" + k] = sorted(d.snoise[k])
+    if isinstance(c, str):
+        if c.startswith("random:"):
+            rnd = _random.Random(c)
+            order = {}
+            for role, names in roles.items():
+                names = list(names)
+                rnd.shuffle(names)
+                order[role] = names
+            pres["order"] = order
+            pres["container"] = rnd.choice([set, list, tuple, frozenset])
+            pres["proactive_simplify"] = rnd.random() < 0.25
+        elif c == "list-reversed":
+            pres["order"] = {role: list(reversed(sorted(names))) for role, names in roles.items()}
+            pres["container"] = list
+        else:
+            pres["container"] = {"set": set, "list": list, "tuple": tuple, "frozenset": frozenset}[c]
+    return pres
+
+
+def make_ui_model(d, ui, container=set, order=None, as_string=False, symtab=None, proactive_simplify=False):
     """Build ui.Model the way a user would.  container: set/list/tuple/frozenset for the
     symbol collections; order: optional dict role -> list of names giving declaration order."""
     symtab = symtab or make_symbols(d, ui.Symbol)
@@ -272,8 +305,13 @@ def make_ui_model(d, ui, container=set, order=None, as_string=False, symtab=None
     state_model = {}
     for n in upd_names:
         state_model[symtab[n]] = to_text(d.update[n]) if as_string else to_sympy(d.update[n], symtab)
-    model = ui.Model(dt=symtab["dt"], state=coll(d.state, "state"), control=coll(d.control, "control"),
-                     state_model=state_model, calibration=coll(d.calib, "calib"))
+    kw = {}
+    if proactive_simplify:
+        kw["proactive_simplify"] = True
+    import contextlib, io
+    with contextlib.redirect_stdout(io.StringIO()):
+        model = ui.Model(dt=symtab["dt"], state=coll(d.state, "state"), control=coll(d.control, "control"),
+                         state_model=state_model, calibration=coll(d.calib, "calib"), **kw)
     return model, symtab
 
 
